@@ -105,6 +105,10 @@ def run_property(prop, tier, seed, only_kernel=None, verbose=True):
                 continue
             if j.kind == "search":
                 continue
+            # debugging aid only (never set by the registered commands): restrict the run to jobs whose note or name matches
+            flt = os.environ.get("VERIF_DEBUG_JOB_FILTER")
+            if flt and not re.search(flt, j.name + " " + (j.note or "")):
+                continue
             tasks.append((m, kb, wd, cfile, j))
 
     results = []
